@@ -19,6 +19,8 @@ use std::fmt::Write as _;
 
 #[path = "c03arity.rs"]
 pub mod arity;
+#[path = "c03argty.rs"]
+pub mod argty;
 
 pub fn builtins_s(genv: &GlobalTypeEnv) -> S {
     let mut rows = Vec::new();
@@ -527,6 +529,8 @@ pub fn main(args: &util::Args) {
     }
     // ---- argument count at every call form (c03arity.rs)
     arity::run(&dir, args.seed, &args.tier, &mut out, &mut kinds_total);
+    // ---- argument type at every argument position of every call form (c03argty.rs)
+    argty::run(&dir, args.seed, &args.tier, &mut out, &mut kinds_total);
     writeln!(out, "#KINDS\t{}", kinds_total.iter().map(|(k, v)| format!("{}={}", k, v)).collect::<Vec<_>>().join(" ")).unwrap();
     writeln!(out, "#FEATS\t{}", feats_total.iter().map(|(k, v)| format!("{}={}", k, v)).collect::<Vec<_>>().join(" ")).unwrap();
     let _ = std::fs::remove_dir_all(&dir);
